@@ -1,4 +1,5 @@
 import Gtree
+import Gtree.Spec.MalformedErr
 open Gtree Gtree.Codec
 
 def showOut (o : Out) : String := "w=" ++ hexOf o.written ++ " e=" ++ showErr o.err
@@ -89,6 +90,14 @@ def handle (words : List String) : Option String :=
     -- each block as the splitter sends it: every row followed by LF
     let blocks := (splitBlocks s.rows).map (fun rows => (rows.map (fun r => r ++ [lf])).flatten)
     pure (hexList blocks ++ " toolong=" ++ (if s.tooLong then "1" else "0"))
+  | ["malformed", doc] => do
+    -- the declarative judgement (Spec/Malformed.lean): the error the first malformed row stands for, and its class
+    let d ← unhex doc
+    let s := scanLines d
+    pure (match firstMalformed {} s.rows with
+      | some (r, m) => showErr (some (Err.gen (toGErr (r, m)))) ++ " class=" ++ (match m with
+          | .noBullet => "noBullet" | .emptyText => "emptyText" | .badIndent => "badIndent" | .jump => "jump" | .orphan => "orphan")
+      | none => (if s.tooLong then "toolong" else "nil") ++ " class=none")
   | ["blank", b] => do let b ← unhex b; pure (if isBlank b then "1" else "0")
   | ["parserows", rows] => do let rs ← unhexList rows; pure (parseRowsShow rs)
   | ["clean", p] => do let p ← unhex p; pure (hexOf (pathClean p))
